@@ -1192,9 +1192,19 @@ CB_OPTS = {
 }
 
 
-def chain_tn(mk, L=4, kind="real", numkind=None, bond=2, legs=2, pair=(1, 2)):
-    """open chain of L tensors, `legs` outer labels (dimension 2) on each tensor; the pair to be
-    compressed therefore has outer size 2**legs * (neighbour bond) > its bond"""
+_CB_NUMERIC_ONLY = {
+    "local-fit": "local fit iterates (alternating least squares)",
+    "reduced-false": "SVD of the rank-deficient 4 x 4 product: the discarded singular values vanish only by a rank argument",
+    "virtual-tree": "oblique projectors from tree gauges: no certificate within the engine's degree bound",
+    "virtual-tree2": "oblique projectors from tree gauges: no certificate within the engine's degree bound",
+    "gauges": "simple-update gauges are inverted and re-extracted: no certificate within the engine's degree bound",
+    "canon1-after1": "local re-gauging after the compression: no certificate within the engine's degree bound",
+}
+
+
+def chain_tn(mk, L=4, kind="real", numkind=None, bond=2, legs=(0, 1, 1, 0)):
+    """open chain of L tensors with legs[i] outer labels (dimension 2) on tensor i: each tensor of the
+    middle pair has outer size 2 * 2 (leg x neighbour bond) > its bond"""
     k = kind if mk.sym else (numkind or kind)
     ts = []
     for i in range(L):
@@ -1205,12 +1215,12 @@ def chain_tn(mk, L=4, kind="real", numkind=None, bond=2, legs=2, pair=(1, 2)):
         if i < L - 1:
             inds.append(f"b{i}{i + 1}")
             shape.append(bond)
-        for c in range(legs):
+        for c in range(legs[i]):
             inds.append(f"o{i}{c}")
             shape.append(2)
         ts.append(qtn.Tensor(mk.array(f"T{i}", tuple(shape), k), inds, tags=[f"I{i}"]))
     tn = qtn.TensorNetwork(ts)
-    out = tuple(f"o{i}{c}" for i in range(L) for c in range(legs))
+    out = tuple(f"o{i}{c}" for i in range(L) for c in range(legs[i]))
     return tn, out
 
 
@@ -1233,12 +1243,15 @@ def compress_between_exact(mk, opt, cap):
                tc.TensorNetwork._canonize_around_tids, tc.TensorNetwork._gauge_local_tids,
                tc.TensorNetwork._compress_between_virtual_tree_tids, tc.TensorNetwork._compress_between_full_bond_tids,
                tc.TensorNetwork._compress_between_local_fit, tc.TensorNetwork._compute_bond_env, tc.TensorNetwork._compute_tree_gauges)
-    if mk.sym and opt in ("local-fit",):
-        return _numeric_only(mk, "local fit iterates (alternating least squares)")
+    if mk.sym and opt in _CB_NUMERIC_ONLY:
+        return _numeric_only(mk, _CB_NUMERIC_ONLY[opt])
     L = 4
-    tn, out = chain_tn(mk, L, kind="real", numkind="cplx", legs=1)
+    tn, out = chain_tn(mk, L, kind="real", numkind="cplx", legs=(0, 1, 1, 0) if mk.sym else (1, 1, 1, 1))
     want = exact(tn, out)
     kw = dict(CB_OPTS[opt])
+    info = {}
+    if "absorb" in kw and kw["absorb"] is None:
+        kw["info"] = info           # absorb=None: the singular values are handed over through `info`
     if kw.get("gauges") == "su":
         kw["gauges"] = {ix: mk.array(f"g{ix}", (2,), "pos") for ix in ("b01", "b12", "b23")}
         # a (network, gauges) pair denotes the network with the gauges inserted on their bonds
@@ -1250,8 +1263,37 @@ def compress_between_exact(mk, opt, cap):
         got = ref.sum_of_products(ref.tn_terms(tn) + [(g, (ix,)) for ix, g in kw["gauges"].items()], out)
         if kw.get("equalize_norms"):
             got = got * 10 ** tn.exponent
-    elif kw.get("absorb", "both") is None and tn.num_tensors == L:
-        got = exact(tn, out)
+    elif "singular_values" in info:
+        # the network with the returned singular values inserted on the bond
+        got = ref.sum_of_products(ref.tn_terms(tn) + [(info["singular_values"], ("b12",))], out)
     else:
         got = exact(tn, out)
     mk.eq(f"compress_between(I1, I2, max_bond={cap}, cutoff=0.0, {opt}): dense tensor unchanged", got, want)
+
+
+@obligation(PROP, params=[{"opt": o, "chi": c, "_tiers": _Q if (o in ("basic", "virtual-tree", "full-bond") and c == 1) else _T}
+                          for o in CB_OPTS for c in (1, 2, 3)], wall_s=300, timeout_s=400, max_paths=64)
+def compress_between_cap(mk, opt, chi):
+    """compress_between on a double bond (2 x 2 = 4) with a truncating cap and cutoff 0: afterwards the
+    two tensors share a single bond of size <= chi, whatever the local gauge choice"""
+    mk.encodes(tc.TensorNetwork.compress_between, tc.TensorNetwork._compress_between_tids, tc.tensor_compress_bond,
+               tc.tensor_make_single_bond, decomp._trim_and_renorm_svd_result_numba)
+    if mk.sym and opt in ("local-fit", "gauges"):
+        return _numeric_only(mk, "iterative / inverse-gauge route")
+    k = "real" if mk.sym else "cplx"
+    ts = [qtn.Tensor(mk.array("T0", (2, 2), k), ("b01", "o0"), tags="I0"),
+          qtn.Tensor(mk.array("T1", (2, 2, 2, 2, 2), k), ("b01", "x", "y", "o1", "p1"), tags="I1"),
+          qtn.Tensor(mk.array("T2", (2, 2, 2, 2, 2), k), ("x", "y", "b23", "o2", "p2"), tags="I2"),
+          qtn.Tensor(mk.array("T3", (2, 2), k), ("b23", "o3"), tags="I3")]
+    tn = qtn.TensorNetwork(ts)
+    kw = dict(CB_OPTS[opt])
+    if kw.get("gauges") == "su":
+        kw["gauges"] = {ix: mk.array(f"g{ix}", (2,), "pos") for ix in ("b01", "b23")}
+    seen = []
+    with shapes_only():
+        tn.compress_between("I1", "I2", max_bond=chi, cutoff=0.0, callback=lambda t, tids: seen.append(tids), **kw)
+    shared = [ix for ix in tn["I1"].inds if ix in tn["I2"].inds]
+    mk.same(f"compress_between(max_bond={chi}, cutoff=0.0, {opt}): a single bond is left", len(shared), 1)
+    mk.same(f"compress_between(max_bond={chi}, cutoff=0.0, {opt}): bond <= {chi}", max(tn.ind_size(shared[0]), chi) if shared else None, chi)
+    mk.same("the callback is called once with the pair", len(seen), 1)
+    mk.same("outer labels unchanged", sorted(tn.outer_inds()), ["o0", "o1", "o2", "o3", "p1", "p2"])
